@@ -194,7 +194,6 @@ func (e *MetaCDC) ReloadTask() {
 		newCollectionNames := GetCollectionNamesFromTaskInfo(taskInfo)
 		e.collectionNames.data[uKey] = append(e.collectionNames.data[uKey], newCollectionNames...)
 		e.collectionNames.excludeData[uKey] = append(e.collectionNames.excludeData[uKey], taskInfo.ExcludeCollections...)
-		e.collectionNames.excludeData[uKey] = lo.Uniq(e.collectionNames.excludeData[uKey])
 		e.collectionNames.extraInfos[uKey] = taskInfo.ExtraInfo
 		e.cdcTasks.Lock()
 		e.cdcTasks.data[taskInfo.TaskID] = taskInfo
@@ -338,6 +337,20 @@ func partialOverlap(a, b string) bool {
 	return overlap && !ab && !ba
 }
 
+// withoutOnce removes one occurrence of every item (the lists are multisets: one entry per task that implies it)
+func withoutOnce(list []string, items ...string) []string {
+	res := append([]string{}, list...)
+	for _, it := range items {
+		for i, v := range res {
+			if v == it {
+				res = append(res[:i], res[i+1:]...)
+				break
+			}
+		}
+	}
+	return res
+}
+
 func (e *MetaCDC) checkDuplicateCollection(uKey string,
 	newCollectionNames []string,
 	extraInfo model.ExtraInfo,
@@ -460,8 +473,9 @@ func (e *MetaCDC) Create(req *request.CreateRequest) (resp *request.CreateRespon
 	revertCollectionNames := func() {
 		e.collectionNames.Lock()
 		defer e.collectionNames.Unlock()
-		e.collectionNames.excludeData[uKey] = lo.Without(e.collectionNames.excludeData[uKey], excludeCollectionNames...)
-		e.collectionNames.data[uKey] = lo.Without(e.collectionNames.data[uKey], newCollectionNames...)
+		e.collectionNames.excludeData[uKey] = withoutOnce(e.collectionNames.excludeData[uKey], excludeCollectionNames...)
+		e.collectionNames.data[uKey] = withoutOnce(e.collectionNames.data[uKey], newCollectionNames...)
+		excludeCollectionNames, newCollectionNames = nil, nil // the revert may run twice
 	}
 
 	defer func() {
@@ -600,6 +614,7 @@ func (e *MetaCDC) Create(req *request.CreateRequest) (resp *request.CreateRespon
 			log.Warn("fail to delete the task", zap.String("task_id", info.TaskID), zap.Error(deleteErr))
 			return nil, servererror.NewServerError(deleteErr)
 		}
+		excludeCollectionNames, newCollectionNames = nil, nil // delete has already reverted the book-keeping
 		return nil, err
 	}
 
@@ -1484,8 +1499,8 @@ func (e *MetaCDC) delete(taskID string) error {
 	uKey := getTaskUniqueIDFromInfo(info)
 	collectionNames := GetCollectionNamesFromTaskInfo(info)
 	e.collectionNames.Lock()
-	e.collectionNames.excludeData[uKey] = lo.Without(e.collectionNames.excludeData[uKey], info.ExcludeCollections...)
-	e.collectionNames.data[uKey] = lo.Without(e.collectionNames.data[uKey], collectionNames...)
+	e.collectionNames.excludeData[uKey] = withoutOnce(e.collectionNames.excludeData[uKey], info.ExcludeCollections...)
+	e.collectionNames.data[uKey] = withoutOnce(e.collectionNames.data[uKey], collectionNames...)
 	e.collectionNames.Unlock()
 
 	e.cdcTasks.Lock()
